@@ -21,6 +21,10 @@ EV = ['transpose', 'transpose_none', 'reshape_b', 'reshape', 'flatten', 'flip', 
       'invert_flip_reshape', 'transpose_flip_slice', 'reshape_flip_pad']
 OUTP = ['transpose', 'flip', 'invert', 'flip_transpose', 'sum']
 CL = ['flip_transpose', 'invert_flip', 'slice_transpose', 'sum_transpose', 'transpose_add_scalar']
+KF = {'KF_C10_EVAL_DEFAULT_RESOLVER_CAPACITY': 1}   # TEMPORARY exclusion of the pending finding below (see PENDING_FINDINGS)
+def _tier(fam, prog, res, quick=(), thorough=(), **kw):
+    return _h(fam, prog, res, [(e, dict(k)) for e, k in quick], [(e, dict(k)) for e, k in thorough], **kw)
+S23 = {'SH0': 2, 'SH1': 3}; S32 = {'SH0': 3, 'SH1': 2}; S33 = {'SH0': 3, 'SH1': 3}
 if os.environ.get('C10_ALL'):   # measurement mode: every candidate, optional, to find out which return a verdict
     es = [int(x) for x in os.environ['C10_ALL'].split(',')]
     rs = [int(x) for x in os.environ.get('C10_RES', '1,0,2').split(',')]
@@ -30,7 +34,101 @@ if os.environ.get('C10_ALL'):   # measurement mode: every candidate, optional, t
             for p in progs:
                 HARNESSES.append(_h(fam, p, r, [(e, {}) for e in es], [], optional=True, timeout=int(os.environ.get('C10_TMO', '300')), gate=False))
 else:
-    HARNESSES = []
-OUTSIDE = []
-ASSUMPTIONS = []
-CLAIM = dict(text='', note='')
+    # (e, extra config): e = MAXE. Measured on the loaded machine (s / MB) in the trailing comments; quick = what returns in <= ~2 min.
+    HARNESSES = [
+     # ---- array::fn front ends vs the view
+     _tier('front', 'transpose', 1, [(3, {})], [(4, {})]),                       # 55 s / 910
+     _tier('front', 'transpose', 2, [], [(3, {})]),
+     _tier('front', 'flip', 1, [(2, {})], [(3, {})]),                            # 38 s / 1271 (MAXE=2)
+     # ---- eval(view), depth 1
+     _tier('ev', 'transpose', 2, [(3, {})], [(4, {})]),                          # 40 s / 717
+     _tier('ev', 'transpose', 1, [], [(3, {})]), _tier('ev', 'transpose', 0, [], [(3, {})]),
+     _tier('ev', 'transpose_none', 0, [(3, {})], [(4, {})]),                     # 23 s / 892
+     _tier('ev', 'transpose_none', 1, [], [(3, {})]), _tier('ev', 'transpose_none', 2, [], [(3, {})]),
+     _tier('ev', 'flatten', 1, [(3, {})], [(4, {})]), _tier('ev', 'flatten', 2, [], [(3, {})]),       # 23 s / 849
+     _tier('ev', 'flatten', 0, [], [(2, {})], mem_gb=6),                         # dynamic_ndarray result: 154 s / 5042 at MAXE=2
+     _tier('ev', 'reshape', 0, [(2, {})], [(3, {}), (4, {})]), _tier('ev', 'reshape', 1, [], [(3, {})]),       # MAXE=2 44 s / 962; MAXE=3 57-104 s / 1556
+     _tier('ev', 'invert', 1, [(3, {})], [(4, {})]), _tier('ev', 'invert', 0, [], [(3, {})]),         # 46 s / 851
+     _tier('ev', 'flip', 1, [(2, {})], [(3, {})]), _tier('ev', 'flip', 0, [], [(3, {})]), _tier('ev', 'flip', 2, [], [(3, {})]),   # 28 s / 1249 (MAXE=2); vector result 115-168 s / 3.8 GB at MAXE=3
+     _tier('ev', 'slice', 0, [(2, {})], [(3, {})]), _tier('ev', 'slice', 1, [], [(3, {})]),           # 43 s / 724 (MAXE=2)
+     _tier('ev', 'add_scalar', 0, [(2, {})], [(3, {})]), _tier('ev', 'add_scalar', 1, [], [(2, {})]),  # 47 s / 2387 (MAXE=2)
+     _tier('ev', 'sum', 1, [(2, {})], [(2, {})]),                                # 124 s / 2224 (MAXE=2); MAXE=3: no verdict in 300 s
+     # results larger than the operand: default resolver with the open finding excluded (operand capacity 4 / 16), and unexcluded at extents where no overflow is possible
+     _tier('ev', 'tile', 3, [(2, dict(KF, SH0=1, SH1=2))], [(2, dict(KF, SH0=2, SH1=1)), (2, dict(KF, SH0=2, SH1=2)), (2, KF)]),   # const (1,2): 36 s / 1104; symbolic MAXE=2: 305 s / 1446
+     _tier('ev', 'pad', 3, [(2, dict(KF, SH0=1, SH1=2))], [(2, dict(KF, SH0=2, SH1=1)), (2, dict(KF, SH0=2, SH1=2)), (2, KF)]),    # const (1,2): 48 s / 1240; symbolic MAXE=2: 341 s / 1502
+     _tier('ev', 'tile', 0, [], [(2, {}), (3, KF)]), _tier('ev', 'pad', 0, [], [(2, {}), (3, KF)]),  # MAXE=2: 102 / 160 s; MAXE=3 found the counterexample in 150 / 250 s
+     # ---- depth 2 / 3
+     _tier('ev', 'flip_transpose', 0, [(2, {})], [(3, {})]), _tier('ev', 'flip_transpose', 1, [], [(2, {})]),                     # 26 s / 707
+     _tier('ev', 'invert_flip', 1, [(2, {})], [(3, {})]), _tier('ev', 'invert_flip', 0, [], [(3, {})]),                           # 43 s / 1257
+     _tier('ev', 'reshape_flip', 0, [], [(3, {})]), _tier('ev', 'reshape_flip', 1, [], [(2, {})]),
+     _tier('ev', 'add_scalar_transpose', 0, [], [(3, {})]), _tier('ev', 'transpose_add_scalar', 0, [], [(3, {})]),
+     _tier('ev', 'slice_transpose', 0, [], [(3, {})]), _tier('ev', 'slice_transpose', 1, [], [(3, {})]),
+     _tier('ev', 'transpose_slice', 0, [], [(3, {})]), _tier('ev', 'transpose_slice', 1, [], [(3, {})]),
+     _tier('ev', 'invert_flip_reshape', 0, [], [(3, {})]), _tier('ev', 'invert_flip_reshape', 1, [], [(3, {})]),
+     _tier('ev', 'transpose_flip_slice', 0, [(2, {})], [(3, {})]), _tier('ev', 'transpose_flip_slice', 1, [], [(3, {})]),         # 60 s / 825 (MAXE=2)
+     # ---- caller-supplied output, prior content symbolic
+     _tier('out', 'transpose', 1, [(2, {})], [(3, {})]), _tier('out', 'transpose', 0, [], [(3, {})]),                             # 30 s / 584
+     _tier('out', 'invert', 0, [(2, {})], [(3, {})]), _tier('out', 'invert', 1, [], [(3, {})]),                                   # 20 s / 561
+     _tier('out', 'flip', 0, [], [(3, {})]), _tier('out', 'flip', 1, [], [(2, {})]),
+     _tier('out', 'flip_transpose', 0, [], [(3, {})]), _tier('out', 'flip_transpose', 1, [], [(2, {})]),
+     _tier('out', 'sum', 1, [], [(3, {})]),                                      # 209 s / 3709
+     # ---- composition law eval(outer(inner(a))) == eval(outer(eval(inner(a))))
+     _tier('cl', 'flip_transpose', 0, [(2, {})], [(2, {})]), _tier('cl', 'flip_transpose', 1, [], [(2, {})]),                     # 98 s / 1427
+     _tier('cl', 'invert_flip', 0, [], [(2, {}), (3, {})]), _tier('cl', 'invert_flip', 1, [], [(2, {})]),
+     _tier('cl', 'slice_transpose', 0, [], [(2, {})]), _tier('cl', 'slice_transpose', 1, [], [(2, {})]),
+     _tier('cl', 'transpose_add_scalar', 0, [], [(2, {})], mem_gb=6),
+     # ---- attempted, no verdict so far (thorough only, optional: a timeout is recorded as no-verdict and not counted)
+     _tier('ev', 'reshape_b', 1, [], [(2, {})], optional=True), _tier('ev', 'tile', 1, [], [(2, {})], optional=True), _tier('ev', 'pad', 1, [], [(2, {})], optional=True),
+     _tier('ev', 'sum', 0, [], [(2, {})], optional=True), _tier('ev', 'sum_transpose', 1, [], [(2, {})], optional=True), _tier('ev', 'sum_add_scalar', 1, [], [(2, {})], optional=True),
+     _tier('ev', 'flatten_pad', 1, [], [(2, {})], optional=True), _tier('ev', 'reshape_flip_pad', 0, [], [(2, {})], optional=True), _tier('cl', 'sum_transpose', 1, [], [(2, {})], optional=True),
+    ]
+_WHAT_KF = ('array::eval(view) with its DEFAULT resolver template argument (eval_t) chooses the result buffer from the OPERAND type: over a hybrid operand of capacity C the result is a hybrid array of '
+            'capacity C even for views that are larger than their operand (tile, pad). The refused resize leaves the result at its default shape, the evaluator returns early (shape mismatch: '
+            'nmtools_verif_eval_shape_mismatch and the capacity hook fire) and eval returns an unwritten array of shape (1,1) instead of the view\'s shape. array::tile / array::pad (RowMajorResolver) are not affected. ')
+PENDING_FINDINGS = [
+ dict(id='C10-eval-default-resolver-capacity', harness='ev_tile_old', exclude_define='KF_C10_EVAL_DEFAULT_RESOLVER_CAPACITY', witness_config={'MAXE': 3, 'RES': 0},
+      witness_inputs=['0x3', '0x3', '0x0', '0x0', '0x0', '0x0', '0x0', '0x0', '0x0', '0x0', '0x0', '0x2', '0x1', '0x0', '0x1'],
+      what=_WHAT_KF + 'Witness: capacity 16, a of shape (3,3), tile reps (2,1): the view has shape (6,3) = 18 elements.'),
+ dict(id='C10-eval-default-resolver-capacity', harness='ev_pad_old', exclude_define='KF_C10_EVAL_DEFAULT_RESOLVER_CAPACITY', witness_config={'MAXE': 3, 'RES': 0},
+      witness_inputs=['0x3', '0x3', '0x0', '0x0', '0x0', '0x0', '0x0', '0x1', '0x0', '0x0', '0x0', '0x1', '0x1', '0x1', '0x0', '0x0', '0x0', '0x2'],
+      what=_WHAT_KF + 'Witness: capacity 16, a of shape (3,3) padded by (1,1,1,0): shape (5,4) = 20 elements.'),
+ dict(id='C10-eval-default-resolver-capacity', harness='ev_tile_old4', exclude_define='KF_C10_EVAL_DEFAULT_RESOLVER_CAPACITY', witness_config={'MAXE': 2, 'RES': 3},
+      witness_inputs=['0x1', '0x2', '0x0', '0x0', '0x0', '0x0', '0x2', '0x2', '0x0', '0x1'],
+      what=_WHAT_KF + 'Witness: capacity 4, a of shape (1,2), tile reps (2,2): the view has shape (2,4) = 8 elements (inside both the symbolic MAXE=2 and the constant-shape SH0=1,SH1=2 domains).'),
+ dict(id='C10-eval-default-resolver-capacity', harness='ev_pad_old4', exclude_define='KF_C10_EVAL_DEFAULT_RESOLVER_CAPACITY', witness_config={'MAXE': 2, 'RES': 3},
+      witness_inputs=['0x1', '0x2', '0x0', '0x0', '0x0', '0x0', '0x1', '0x1', '0x1', '0x0', '0x0', '0x2', '0x0'],
+      what=_WHAT_KF + 'Witness: capacity 4, a of shape (1,2) padded by (1,1,1,0): shape (3,3) = 9 elements (inside both the symbolic MAXE=2 and the constant-shape SH0=1,SH1=2 domains).'),
+]
+OUTSIDE = [
+ 'PROGRAMS ATTEMPTED AND THEIR OUTCOME (hybrid 2-d operand; s = wall seconds on the loaded machine; res = old (eval default eval_t) / row / col):',
+ ' depth 1: transpose(axes) holds MAXE=3 all res (40-71 s); transpose(None) holds MAXE=3 all res (20-40 s); flatten holds MAXE=3 row/col (23 s), old (dynamic_ndarray result) only MAXE=2 (154 s, 5 GB); '
+ 'reshape(2-entry target incl. -1) holds MAXE=3 old/row (57-69 s); reshape(bounded-dim target of 1..4 entries) NO VERDICT (out of memory at 6 GB during propositional reduction, also at MAXE=2 and at the constant shape 2x3: 8.4M variables / 41M clauses); '
+ 'flip(axis) holds MAXE=3 old 38-73 s, row/col (std::vector result) 115-168 s / 3.8 GB; slice holds MAXE=3 old 89 s, row/col 180-200 s; unary ufunc invert holds MAXE=3 (45 s); '
+ 'ufunc with scalar add(a,s) holds MAXE=3 old (140 s, 3.9 GB), row only MAXE=2 (66 s) or constant shape (42 s) - MAXE=3 out of memory; sum(axis) holds MAXE=2 row (124 s), MAXE=3 only with a caller-supplied output (209 s), old (dynamic result) out of memory; '
+ 'tile / pad: old holds with the pending finding excluded (operand capacity 4: 36-48 s per constant shape, 305-341 s symbolic MAXE=2) and unexcluded at MAXE=2 with capacity 16 (102 / 160 s); row/col (std::vector result that grows) NO VERDICT (out of memory at MAXE=2)',
+ ' depth 2: flip(transpose) holds old MAXE=3 117 s, row MAXE=2 43 s; invert(flip) holds MAXE=3 old 73 s / row 166 s; reshape(flip) holds old MAXE=3 190 s, row MAXE=2 101 s; add_scalar(transpose) / transpose(add_scalar) hold old MAXE=3 67 / 163 s, row MAXE=2 104-112 s; '
+ 'slice(transpose) / transpose(slice) hold MAXE=3 old 96-101 s, row 248-255 s; sum(transpose), sum(add(a,s)) NO VERDICT (timeout 200-300 s at MAXE=2 and 3); flatten(pad) NO VERDICT (out of memory)',
+ ' depth 3: invert(flip(reshape)) holds MAXE=3 old 176 s / row 250 s; transpose(flip(slice)) holds MAXE=3 old 232 s / row 272 s, MAXE=2 60 s; reshape(flip(pad)) NO VERDICT (timeout / out of memory)',
+ ' caller-supplied output: transpose, invert hold MAXE=3 (38-55 s); flip, flip(transpose) hold old MAXE=3 (75-92 s), row MAXE=2 (99-110 s); sum holds row MAXE=3 (209 s)',
+ ' composition law: flip(transpose), invert(flip), slice(transpose) hold MAXE=2 old and row (94-146 s), invert(flip) old also MAXE=3 (224 s); transpose(add_scalar) holds old MAXE=2 (175 s, 4.3 GB), row out of memory; sum(transpose) NO VERDICT (timeout)',
+ 'multi-operand broadcast compositions such as sum(transpose(a)*b, axis): not attempted here - a 3-operand broadcast composition gave no verdict in 900 s in the feasibility study and a single binary broadcast ufunc already needs 2.2 GB (C14)',
+ 'ufuncs with multiplication (square, multiply): equality of two multiplier circuits over symbolically selected elements did not return in 300 s (ev_square at MAXE=3, all resolvers); invert / add are used instead',
+ 'view::flip does not accept a maybe-view operand (compile error in index/flip.hpp): in depth-3 chains the inner maybe view (reshape, pad) is unwrapped by the kernel',
+ 'operands other than the hybrid 2-d kind as eval input (fixed-shape, clipped, dynamic operands; their static traits are C11); result kinds reached: hybrid (bounded buffer + fixed dim), std::vector buffer + fixed dim, bounded buffer + clipped 1-d shape (flatten), dynamic_ndarray (old resolver: flatten, sum)',
+ 'a caller-supplied output of the WRONG shape (the evaluator returns silently): the property only speaks about outputs of the right shape; the early return itself is an obligation (NMV-HOOK eval_shape_mismatch) in every query',
+ 'extents > 4, dims other than 2 for the operand, operations of C16/C17 (linear algebra, pooling) as programs',
+]
+ASSUMPTIONS = [
+ 'oracle is differential: eager result vs lazy view computed in the same kernel call; that the lazy view equals NumPy is C03-C08 (only the lazy SHAPE is pinned to NumPy here, to make the symbolic index range over the whole result)',
+ 'RES=1/2 pass RowMajorResolver / ColumnMajorResolver exactly as the array::fn front ends do (front_* harnesses call array::transpose / array::flip themselves)',
+ 'slices with empty selections are excluded from the argument domain (open finding of C05; only the index domain depends on it)',
+ 'pending finding excluded where stated: results larger than the operand capacity under eval\'s default resolver (KF_C10_EVAL_DEFAULT_RESOLVER_CAPACITY)',
+]
+CLAIM = dict(
+ text='For every program of the list that returned a verdict (see outside_the_claim for the complete attempt log) - depth-1 transpose, reshape, flatten, flip, slice, tile, pad, unary ufunc, ufunc with scalar, sum over an axis; '
+      'depth-2/3 chains of them - over a hybrid 2-d operand with shape, data, every argument and the result index symbolic, the solver shows: the array returned by eval(view) (and by the array::transpose / array::flip front ends) '
+      'exists, has the view\'s dim and shape and at every index the view\'s element, for the default, the row-major and the column-major result resolver; a caller-supplied output of the right shape with symbolic prior content '
+      'ends up equal to the view at every index; evaluating outer(inner(a)) once equals evaluating inner first and applying outer to the concrete result; and the evaluator never returns early on a shape mismatch nor asks a bounded '
+      'buffer to exceed its capacity - except for the pending finding (default resolver, results larger than the operand, tile/pad), whose region is excluded and whose witness is replayed.',
+ note='Bounded: extents 1..2/3 (quick) and 1..3/4 (thorough) per program as listed in each query; programs are enumerated (types). Programs without a verdict are listed, not claimed. '
+      'Trusted: clang-14 -O1 lowering, engine/ll2c.py, CBMC; validated per run by gate and witness assertions.')
